@@ -38,6 +38,278 @@ type pkgInfo struct {
 	dir   string // relative to the repository root
 	files []*ast.File
 	funcs map[string]*ast.FuncDecl // "Recv.Name" or "Name"
+	ctors map[string][]entry       // package-level constructor tables: map[int]func() T / []func() T (and map[int]any)
+	pass  map[string]bool          // unexported helpers that only hand the result of DecodeIdFromList on
+}
+
+// variantOfExt: like variantOf, but also accepts new(T) and a plain T{} (constructor functions)
+func variantOfExt(body []ast.Stmt) string {
+	if v := variantOf(body); v != "" {
+		return v
+	}
+	variant := ""
+	for _, bs := range body {
+		ast.Inspect(bs, func(m ast.Node) bool {
+			if variant != "" {
+				return false
+			}
+			switch v := m.(type) {
+			case *ast.CallExpr:
+				if exprName(v.Fun) == "new" && len(v.Args) == 1 {
+					variant = exprName(v.Args[0])
+				}
+			case *ast.CompositeLit:
+				if v.Type != nil {
+					if _, isStruct := v.Type.(*ast.StructType); !isStruct {
+						variant = exprName(v.Type)
+					}
+				}
+			}
+			return true
+		})
+		if variant != "" {
+			break
+		}
+	}
+	return variant
+}
+
+func isFuncType(e ast.Expr) bool { _, ok := e.(*ast.FuncType); return ok }
+
+// collectCtors finds package-level id -> constructor tables
+func collectCtors(pi *pkgInfo, cs map[string]uint64) {
+	pi.ctors = map[string][]entry{}
+	if os.Getenv("C03_NO_CTORS") != "" { // test switch: forces the probe fallback on constructor-table decoders
+		return
+	}
+	for _, f := range pi.files {
+		for _, d := range f.Decls {
+			gd, ok := d.(*ast.GenDecl)
+			if !ok || gd.Tok != token.VAR {
+				continue
+			}
+			for _, sp := range gd.Specs {
+				vs := sp.(*ast.ValueSpec)
+				for k, nm := range vs.Names {
+					if k >= len(vs.Values) {
+						continue
+					}
+					lit, ok := vs.Values[k].(*ast.CompositeLit)
+					if !ok {
+						continue
+					}
+					okType := false
+					switch t := lit.Type.(type) {
+					case *ast.MapType:
+						okType = isFuncType(t.Value) || exprName(t.Value) == "any"
+					case *ast.ArrayType:
+						okType = isFuncType(t.Elt)
+					}
+					if !okType {
+						continue
+					}
+					var es []entry
+					for idx, el := range lit.Elts {
+						id, val := uint64(idx), el
+						if kv, ok := el.(*ast.KeyValueExpr); ok {
+							n, ok := evalConst(kv.Key, cs, 0)
+							if !ok {
+								continue
+							}
+							id, val = n, kv.Value
+						}
+						v := ""
+						switch fv := val.(type) {
+						case *ast.FuncLit:
+							v = variantOfExt(fv.Body.List)
+						case *ast.UnaryExpr:
+							if cl, ok := fv.X.(*ast.CompositeLit); ok && fv.Op == token.AND {
+								v = exprName(cl.Type)
+							}
+						case *ast.Ident: // a named constructor function
+							if fd, ok := pi.funcs[fv.Name]; ok {
+								v = variantOfExt(fd.Body.List)
+							}
+						}
+						if v != "" {
+							es = append(es, entry{id, v})
+						}
+					}
+					if len(es) > 0 {
+						sort.SliceStable(es, func(i, j int) bool { return es[i].id < es[j].id })
+						pi.ctors[nm.Name] = es
+					}
+				}
+			}
+		}
+	}
+}
+
+// collectPass finds unexported plain functions that call DecodeIdFromList and return its result
+func collectPass(pi *pkgInfo) {
+	pi.pass = map[string]bool{}
+	for key, fd := range pi.funcs {
+		if fd.Recv != nil || ast.IsExported(fd.Name.Name) {
+			continue
+		}
+		idVar, direct := "", false
+		ast.Inspect(fd.Body, func(n ast.Node) bool {
+			switch v := n.(type) {
+			case *ast.AssignStmt:
+				if len(v.Rhs) == 1 {
+					if call, ok := v.Rhs[0].(*ast.CallExpr); ok && exprName(call.Fun) == "DecodeIdFromList" {
+						idVar = exprName(v.Lhs[0])
+					}
+				}
+			case *ast.ReturnStmt:
+				for _, r := range v.Results {
+					if call, ok := r.(*ast.CallExpr); ok && exprName(call.Fun) == "DecodeIdFromList" {
+						direct = true
+					}
+				}
+			}
+			return true
+		})
+		returnsId := direct
+		if idVar != "" {
+			ast.Inspect(fd.Body, func(n ast.Node) bool {
+				if rs, ok := n.(*ast.ReturnStmt); ok {
+					for _, r := range rs.Results {
+						if i, ok := r.(*ast.Ident); ok && i.Name == idVar {
+							returnsId = true
+						}
+					}
+				}
+				return true
+			})
+		}
+		if returnsId {
+			pi.pass[key] = true
+		}
+	}
+}
+
+// ifChainsOn translates if / else-if chains comparing id with constants
+func ifChainsOn(body *ast.BlockStmt, id string, cs map[string]uint64) [][]entry {
+	var out [][]entry
+	ast.Inspect(body, func(n ast.Node) bool {
+		head, ok := n.(*ast.IfStmt)
+		if !ok {
+			return true
+		}
+		var es []entry
+		for s := head; s != nil; {
+			v := variantOf(s.Body.List)
+			ast.Inspect(s.Cond, func(m ast.Node) bool {
+				be, ok := m.(*ast.BinaryExpr)
+				if !ok || be.Op != token.EQL {
+					return true
+				}
+				var other ast.Expr
+				if mentions(be.X, id) {
+					other = be.Y
+				} else if mentions(be.Y, id) {
+					other = be.X
+				}
+				if other == nil {
+					return true
+				}
+				if k, ok := evalConst(other, cs, 0); ok {
+					name := v
+					if name == "" {
+						name = types.ExprString(other)
+					}
+					es = append(es, entry{k, name})
+				}
+				return false
+			})
+			next, _ := s.Else.(*ast.IfStmt)
+			s = next
+		}
+		if len(es) >= 2 {
+			sort.SliceStable(es, func(i, j int) bool { return es[i].id < es[j].id })
+			out = append(out, es)
+			return false
+		}
+		return true
+	})
+	return out
+}
+
+// ctorLookups: tbl[id] where tbl is a package-level constructor table
+func ctorLookups(pi *pkgInfo, body *ast.BlockStmt, id string) [][]entry {
+	var out [][]entry
+	ast.Inspect(body, func(n ast.Node) bool {
+		ix, ok := n.(*ast.IndexExpr)
+		if !ok || !mentions(ix.Index, id) {
+			return true
+		}
+		if es, ok := pi.ctors[exprName(ix.X)]; ok {
+			out = append(out, es)
+		}
+		return true
+	})
+	return out
+}
+
+type ntable struct {
+	callee string // "" = found in the function itself
+	es     []entry
+}
+
+// tablesFor: every dispatch over id in body; depth 1 follows the id into same-package callees
+func tablesFor(pi *pkgInfo, body *ast.BlockStmt, id string, cs map[string]uint64, depth int) []ntable {
+	var out []ntable
+	for _, es := range switchesOn(body, id, cs) {
+		out = append(out, ntable{"", es})
+	}
+	for _, es := range ifChainsOn(body, id, cs) {
+		out = append(out, ntable{"", es})
+	}
+	for _, es := range ctorLookups(pi, body, id) {
+		out = append(out, ntable{"", es})
+	}
+	if depth <= 0 {
+		return out
+	}
+	ast.Inspect(body, func(n ast.Node) bool {
+		call, ok := n.(*ast.CallExpr)
+		if !ok {
+			return true
+		}
+		for ai, a := range call.Args {
+			if i, ok := a.(*ast.Ident); !ok || i.Name != id {
+				continue
+			}
+			callee := exprName(call.Fun)
+			var target *ast.FuncDecl
+			for k2, f2 := range pi.funcs {
+				if f2.Name.Name == callee && (k2 == callee || strings.HasSuffix(k2, "."+callee)) {
+					target = f2
+				}
+			}
+			if target == nil {
+				continue
+			}
+			pos, pname := 0, ""
+			for _, fl := range target.Type.Params.List {
+				for _, nm := range fl.Names {
+					if pos == ai {
+						pname = nm.Name
+					}
+					pos++
+				}
+			}
+			if pname == "" {
+				continue
+			}
+			for _, t := range tablesFor(pi, target.Body, pname, cs, depth-1) {
+				out = append(out, ntable{pi.dir + "." + funcKey(target), t.es})
+			}
+		}
+		return true
+	})
+	return out
 }
 
 func evalConst(e ast.Expr, cs map[string]uint64, iota uint64) (uint64, bool) {
@@ -291,6 +563,8 @@ func scanRepo() ([]gtable, []gsite, error) {
 				cs[k] = v
 			}
 		}
+		collectCtors(pi, cs)
+		collectPass(pi)
 		keys := make([]string, 0, len(pi.funcs))
 		for k := range pi.funcs {
 			keys = append(keys, k)
@@ -386,13 +660,17 @@ func scanRepo() ([]gtable, []gsite, error) {
 				}
 				return true
 			})
-			// ---- switches over the id ----
+			// ---- dispatch over the id ----
+			if pi.pass[key] {
+				continue // a pass-through helper: its callers are the sites
+			}
 			idVar, usesById := "", false
 			ast.Inspect(fd.Body, func(n ast.Node) bool {
 				switch v := n.(type) {
 				case *ast.AssignStmt:
 					if len(v.Rhs) == 1 {
-						if call, ok := v.Rhs[0].(*ast.CallExpr); ok && exprName(call.Fun) == "DecodeIdFromList" && idVar == "" {
+						if call, ok := v.Rhs[0].(*ast.CallExpr); ok && idVar == "" &&
+							(exprName(call.Fun) == "DecodeIdFromList" || pi.pass[exprName(call.Fun)]) {
 							idVar = exprName(v.Lhs[0])
 						}
 					}
@@ -408,55 +686,20 @@ func scanRepo() ([]gtable, []gsite, error) {
 			}
 			found := 0
 			if idVar != "" {
-				for k, es := range switchesOn(fd.Body, idVar, cs) {
-					name := site
-					if k > 0 {
-						name += "#" + strconv.Itoa(k)
+				nts := tablesFor(pi, fd.Body, idVar, cs, 1)
+				own := 0
+				for _, t := range nts {
+					name := t.callee
+					if name == "" || len(nts) == 1 {
+						name = site
+						if t.callee == "" && own > 0 {
+							name += "#" + strconv.Itoa(own)
+						}
+						own++
 					}
-					tables = append(tables, gtable{name, es})
+					tables = append(tables, gtable{name, t.es})
 					found++
 				}
-				// the id handed to a same-package function or method
-				ast.Inspect(fd.Body, func(n ast.Node) bool {
-					call, ok := n.(*ast.CallExpr)
-					if !ok {
-						return true
-					}
-					for ai, a := range call.Args {
-						if i, ok := a.(*ast.Ident); !ok || i.Name != idVar {
-							continue
-						}
-						callee := exprName(call.Fun)
-						var target *ast.FuncDecl
-						for k2, f2 := range pi.funcs {
-							if f2.Name.Name == callee && (k2 == callee || strings.HasSuffix(k2, "."+callee)) {
-								target = f2
-							}
-						}
-						if target == nil {
-							continue
-						}
-						// parameter name at position ai
-						pos := 0
-						pname := ""
-						for _, fl := range target.Type.Params.List {
-							for _, nm := range fl.Names {
-								if pos == ai {
-									pname = nm.Name
-								}
-								pos++
-							}
-						}
-						if pname == "" {
-							continue
-						}
-						for _, es := range switchesOn(target.Body, pname, cs) {
-							tables = append(tables, gtable{pi.dir + "." + funcKey(target), es})
-							found++
-						}
-					}
-					return true
-				})
 			}
 			sites = append(sites, gsite{site, found + nmap})
 		}
@@ -473,11 +716,37 @@ func scanRepo() ([]gtable, []gsite, error) {
 	return tables, sites, nil
 }
 
-func gen2(sb *strings.Builder) error {
-	tables, sites, err := scanRepo()
+func gen2(sb *strings.Builder, sources *[]string) error {
+	tables, sites, err := cachedScan()
 	if err != nil {
 		return err
 	}
+	tables = append([]gtable(nil), tables...)
+	sites = append([]gsite(nil), sites...)
+	have := map[string]bool{}
+	for _, t := range tables {
+		have[t.name] = true
+		*sources = append(*sources, fmt.Sprintf("(%s, %s)", vh.Str(t.name), vh.Str("ast")))
+	}
+	// a known decoder whose dispatch the scan did not recognise: probe it
+	for _, fam := range append(families(), families2()...) {
+		if fam.table == "" || have[fam.table] {
+			continue
+		}
+		es, _ := probeFamily(fam, nil)
+		if len(es) == 0 {
+			continue
+		}
+		have[fam.table] = true
+		tables = append(tables, gtable{fam.table, es})
+		for k := range sites { // the probe table counts for its site
+			if sites[k].name == fam.table {
+				sites[k].tables++
+			}
+		}
+		*sources = append(*sources, fmt.Sprintf("(%s, %s)", vh.Str(fam.table), vh.Str("probe")))
+	}
+	sort.SliceStable(tables, func(i, j int) bool { return tables[i].name < tables[j].name })
 	sb.WriteString("\n(* every switch over an id from cbor.DecodeIdFromList and every int-keyed idMap in the repository *)\n")
 	sb.WriteString("Definition gen_tables_all : list (string * list (N * string)) := [\n")
 	for k, t := range tables {
